@@ -15,6 +15,8 @@ use serde_json::json;
 use std::collections::BTreeSet;
 
 const P: &str = "C10";
+const UNSUPPORTED_EXT: u16 = 0xFAAA;
+const CUSTOM_CREDENTIAL: u16 = 0xF111;
 const UNKNOWN_CUSTOM: u16 = 0xF0B7;
 
 fn fail(what: &str, detail: String) -> Failure {
@@ -40,6 +42,12 @@ enum Kind {
     DuplicateIdentity,
     UnknownCustomType,
     WrongSuiteKeyPackage,
+    /// GroupContextExtensions whose RequiredCapabilities name an extension no member supports
+    GceRequiresUnsupported,
+    /// Add of a client that lacks the extension the group requires (but supports the one above)
+    AddLackingRequired,
+    /// Add (by reference) of a client with a custom credential type that only some members' applications accept
+    AddCustomCredential,
 }
 
 #[derive(Clone, Debug)]
@@ -158,12 +166,19 @@ fn run_case(case: &Case, ev: &Evidence) -> CaseResult {
     cfg.encrypt_handshake = case.c(2) & 1 == 1;
     cfg.path_required = case.c(2) & 2 != 0;
     let mut w = World::new(P, cfg);
+    w.require_ext = case.c(8) % 2 == 0;
     let n = 3 + pick(case.c(3), 6);
     let creator = w.new_party();
     w.create_group(creator).map_err(|e| setup_failure(P, "create_group", &e))?;
+    // the applications of some members also accept a custom credential type (their leaves list it), the others do not
+    let mixed_credentials = case.c(9) % 2 == 0;
     let mut spec = CommitSpec::default();
-    for _ in 1..n {
-        spec.add.push(w.new_party());
+    for i in 1..n {
+        let p = w.new_party();
+        if mixed_credentials && i % 2 == 1 {
+            w.parties[p].idp.extra_types.lock().unwrap().push(CUSTOM_CREDENTIAL);
+        }
+        spec.add.push(p);
     }
     w.commit_round(creator, &spec)?.map_err(|e| setup_failure(P, "initial_commit", &e))?;
     for p in 0..w.parties.len() {
@@ -212,6 +227,9 @@ fn run_case(case: &Case, ev: &Evidence) -> CaseResult {
             (Kind::DuplicateIdentity, 5),
             (Kind::UnknownCustomType, 4),
             (Kind::WrongSuiteKeyPackage, 4),
+            (Kind::GceRequiresUnsupported, 7),
+            (Kind::AddLackingRequired, if w.require_ext { 9 } else { 0 }),
+            (Kind::AddCustomCredential, if mixed_credentials { 8 } else { 0 }),
         ];
         let weights: Vec<u32> = kinds.iter().map(|k| k.1).collect();
         let kind = kinds[pick_weighted(op[0], &weights)].0.clone();
@@ -350,6 +368,61 @@ fn run_case(case: &Case, ev: &Evidence) -> CaseResult {
                     by_ref!(Kind::Gce, None, |g: &mut VGroup| g.propose_group_context_extensions(e.clone(), vec![]));
                 }
             }
+            Kind::AddCustomCredential => {
+                // valid only if every member's leaf lists the type: decided by the library on both sides (agreement oracle)
+                let party_id = w.new_party();
+                w.parties[party_id].idp.extra_types.lock().unwrap().push(CUSTOM_CREDENTIAL);
+                let p = &w.parties[party_id];
+                let cs = p.suite_provider(suite);
+                let (sk, pk) = mls_rs::CipherSuiteProvider::signature_key_generate(&cs).map_err(|e| setup_failure(P, "keygen", &OpErr::Mls(e.0)))?;
+                let cred = mls_rs::identity::CustomCredential::new(mls_rs::identity::CredentialType::new(CUSTOM_CREDENTIAL), p.name.clone());
+                let id = mls_rs::identity::SigningIdentity::new(mls_rs::identity::Credential::Custom(cred), pk);
+                let c = build_client(p.crypto.clone(), p.idp.clone(), p.gstore.clone(), p.kstore.clone(), p.pstore.clone(), Default::default(), id, sk, suite);
+                let kp = guard(|| c.generate_key_package_message(Default::default(), Default::default(), Some(t))).map_err(|e| setup_failure(P, "key_package", &e))?;
+                let kp2 = kp.clone();
+                by_ref!(kind.clone(), None, |g: &mut VGroup| g.propose_add(kp2.clone(), vec![]));
+            }
+            Kind::GceRequiresUnsupported => {
+                use mls_rs::extension::MlsExtension;
+                invalid_kinds.insert(kind.clone());
+                let mut e = ExtensionList::new();
+                if op[3] % 2 == 0 {
+                    e.set(Extension::new(EXT_TYPE.into(), vec![op[3] as u8; 2]));
+                }
+                let rc = mls_rs::extension::built_in::RequiredCapabilitiesExt::new(vec![UNSUPPORTED_EXT.into()], vec![], vec![]);
+                e.set(rc.into_extension().expect("ext"));
+                if want_by_value {
+                    by_value_invalid = true;
+                    by_value_gce.push(e);
+                } else {
+                    by_ref!(Kind::GceRequiresUnsupported, None, |g: &mut VGroup| g.propose_group_context_extensions(e.clone(), vec![]));
+                }
+            }
+            Kind::AddLackingRequired => {
+                invalid_kinds.insert(kind.clone());
+                let party_id = w.new_party();
+                let p = &w.parties[party_id];
+                // supports the extension nobody else does, lacks the one the group requires
+                let c: VClient = mls_rs::Client::builder()
+                    .key_package_repo(p.kstore.clone())
+                    .psk_store(p.pstore.clone())
+                    .group_state_storage(p.gstore.clone())
+                    .identity_provider(p.idp.clone())
+                    .crypto_provider(p.crypto.clone())
+                    .mls_rules(Default::default())
+                    .extension_types([UNSUPPORTED_EXT.into()])
+                    .custom_proposal_type(ProposalType::new(CUSTOM_PROPOSAL))
+                    .signing_identity(p.identity.clone(), p.signer.clone(), CipherSuite::from(suite))
+                    .build();
+                let kp = guard(|| c.generate_key_package_message(Default::default(), Default::default(), Some(t))).map_err(|e| setup_failure(P, "key_package", &e))?;
+                if want_by_value {
+                    by_value_invalid = true;
+                    by_value_kps.push((kind.clone(), kp));
+                } else {
+                    let kp2 = kp.clone();
+                    by_ref!(kind.clone(), None, |g: &mut VGroup| g.propose_add(kp2.clone(), vec![]));
+                }
+            }
             Kind::Custom | Kind::UnknownCustomType => {
                 let ty = if kind == Kind::Custom { CUSTOM_PROPOSAL } else { UNKNOWN_CUSTOM };
                 let cp = CustomProposal::new(ProposalType::new(ty), vec![op[3] as u8; 3]);
@@ -483,6 +556,13 @@ fn run_case(case: &Case, ev: &Evidence) -> CaseResult {
             if !d.is_empty() {
                 return Err(fail(&format!("refused_build_changed_state|diff={}", diff_components(&d)), format!("{d:?}")));
             }
+            // two proposals that are each valid can exclude each other: a by-reference Add with the custom credential type and a
+            // by-value Add of a client that does not list that type. Which one gives way is not specified; failing is legitimate.
+            let credential_conflict = props.iter().any(|p| p.kind == Kind::AddCustomCredential) && !by_value_kps.is_empty() && matches!(e.class().as_str(), "InUseCredentialTypeUnsupportedByNewLeaf" | "CredentialTypeOfNewLeafIsUnsupported");
+            if credential_conflict {
+                ev.class("build_refused:mutually_exclusive_valid_adds");
+                return Ok(());
+            }
             if !by_value_invalid && !by_value_reinit_with_others {
                 // nothing sent by value is invalid on its own: the by-reference offenders should have been dropped
                 let sig = format!("{P}|valid_by_value_set_refused|{}", e.class());
@@ -554,6 +634,7 @@ fn run_case(case: &Case, ev: &Evidence) -> CaseResult {
         return Err(fail("committer_reports_two_different_unused_sets", format!("CommitOutput: {} apply: {}", committer_unused.len(), committer_unused2.len())));
     }
 
+    let mut followers: Vec<usize> = vec![];
     // (A) every other member that has all referenced proposals accepts and reports the same sets
     let missed_is_applied = missed_ref.as_ref().map(|r| applied.iter().any(|p| p.reference.as_ref() == Some(&r.0))).unwrap_or(false);
     for m in &members {
@@ -572,6 +653,16 @@ fn run_case(case: &Case, ev: &Evidence) -> CaseResult {
                     ev.class("receiver_missing_a_referenced_proposal_rejects");
                     continue;
                 }
+                // A member that this commit removes and whose application does not know the custom credential type cannot
+                // validate the leaf of a client that the remaining members (who all accept the type) let in: not a disagreement
+                // between committer-side and receiver-side validation.
+                let m_leaf = w.parties[*m].leaf();
+                let m_is_removed = removed_leaves.contains(&m_leaf) || by_value_removes.contains(&m_leaf);
+                let m_knows_type = w.parties[*m].idp.extra_types.lock().unwrap().contains(&CUSTOM_CREDENTIAL);
+                if m_is_removed && !m_knows_type && e.class() == "IdentityProviderError" && props.iter().any(|p| p.kind == Kind::AddCustomCredential) {
+                    ev.class("removed_member_cannot_validate_custom_credential");
+                    continue;
+                }
                 return Err(fail(
                     &format!("receiver_rejects_built_commit|{}", e.class()),
                     format!(
@@ -587,6 +678,9 @@ fn run_case(case: &Case, ev: &Evidence) -> CaseResult {
             Ok(ReceivedMessage::Commit(d)) => {
                 if missing_needed {
                     return Err(fail("receiver_accepts_commit_referencing_unknown_proposal", format!("member {m}; missed flight {missed_idx:?} of {} flights, missed_ref {:?}; applied {:?}; by-reference kinds {:?}", flights.len(), missed_ref.as_ref().map(|r| (hex::encode(&r.0[..r.0.len().min(12)]), r.1.clone())), applied.iter().map(|p| format!("{:?}/{}/by_ref={}", p.proposal.proposal_type(), sender_key(&p.sender), p.by_ref)).collect::<Vec<_>>(), props.iter().map(|p| format!("{:?}@{}", p.kind, p.proposer)).collect::<Vec<_>>())));
+                }
+                if matches!(d.effect, CommitEffect::NewEpoch(_)) {
+                    followers.push(*m);
                 }
                 let (ra, ru) = match &d.effect {
                     CommitEffect::NewEpoch(ne) => (set_of(ne.applied_proposals()), set_of(ne.unused_proposals())),
@@ -604,6 +698,36 @@ fn run_case(case: &Case, ev: &Evidence) -> CaseResult {
                 }
             }
             Ok(_) => return Err(fail("commit_wrong_kind", String::new())),
+        }
+    }
+    // (D) dropping proposals leaves no trace: the next, ordinary commit of another member is accepted by the committer and
+    // by everybody else who followed
+    if !matches!(desc.effect, CommitEffect::ReInit(_)) && !followers.is_empty() {
+        let f = followers[pick(case.c(5), followers.len())];
+        let t2 = w.tick();
+        let party = &mut w.parties[f];
+        match guard(|| party.gm().commit_builder().commit_time(t2).build()) {
+            Err(e) if e.is_panic() => return Err(panic_failure(P, "commit_builder.build (follow-up)", &e)),
+            Err(e) => return Err(fail(&format!("follow_up_commit_refused|{}", e.class()), format!("member {f} cannot build an empty commit after the commit of {committer}: {}", e.text()))),
+            Ok(o) => {
+                let b = o.commit_message.to_bytes().expect("enc");
+                for m in followers.iter().copied().chain([committer]) {
+                    if m == f {
+                        continue;
+                    }
+                    match w.process(m, &b) {
+                        Ok(_) => {}
+                        Err(e) if e.is_panic() => return Err(panic_failure(P, "process_incoming_message(follow-up commit)", &e)),
+                        Err(e) => {
+                            return Err(fail(
+                                &format!("follow_up_commit_rejected|{}", e.class()),
+                                format!("member {m} rejects the ordinary follow-up commit of member {f} after the commit of {committer} that dropped {:?}: {}", invalid_kinds, e.text()),
+                            ))
+                        }
+                    }
+                }
+                ev.class("follow_up_commits_accepted");
+            }
         }
     }
     ev.class_n("proposals_by_reference", props.len() as u64);
@@ -626,10 +750,11 @@ pub fn run(ctx: &Ctx) -> ! {
     ev.set_rule(
         "fresh group of 3-8 members per case; a multiset of up to 8 proposals, each by reference (a real proposal message from a generated member, or a new-member add proposal) or by value, \
          drawn from valid kinds (add, update, remove, external PSK, GCE, custom) and kinds invalid by construction (update from / removal of the committer, self-removal by value, second change of a leaf, \
-         unknown PSK, second GCE, ReInit with others, expired / not-yet-valid / wrong-suite key package, credential refused by every member's identity provider, duplicate identity, unregistered custom type); \
+         unknown PSK, second GCE, ReInit with others, expired / not-yet-valid / wrong-suite key package, credential refused by every member's identity provider, duplicate identity, unregistered custom type, GroupContextExtensions requiring an extension nobody supports, \
+         Add lacking the extension the group requires, Add with a custom credential type only some members accept); \
          every receiver caches the proposals in its own order and one receiver misses one. Oracle: (A) a built commit is accepted by every member that has the referenced proposals, with the same applied and \
          unused sets as the committer reports; the member missing a referenced proposal rejects, one missing only an unused proposal accepts; (B) an invalid by-value proposal => build fails and the committer is \
-         canonically unchanged; a build must not fail when every by-value proposal is valid; (C) the applied set satisfies the RFC 9420 §12.2 set rules (independent checker) and contains nothing invalid by construction. \
+         canonically unchanged; a build must not fail when every by-value proposal is valid; (D) an ordinary follow-up commit by another member is accepted by everybody (dropped proposals leave no trace); (C) the applied set satisfies the RFC 9420 §12.2 set rules (independent checker) and contains nothing invalid by construction. \
          Non-trivial = >= 2 different invalid kinds, or an invalid kind together with an update/remove conflict; distinct by case value.",
     );
     ev.assume("forged commits (receiver-side rejection of invalid sets built by a dishonest member) are exercised by C03's insider mutations, not here");
